@@ -96,3 +96,16 @@
 ;@ghost closedB (Seq Any)
 ;@ghost bmAdds (Seq Any)
 ;@ghost bmRemoves (Seq Any)
+
+;@chunk netio msgBytesOf
+; bytes of a message: used only inside a single send, during which the message is not modified (frame-checked)
+(declare-fun msgBytesOf (Int) String)
+;@ghost wok (Seq Any)
+;@ghost wbytes (Seq String)
+;@ghost wfail (Seq Any)
+;@ghost closedC (Seq Any)
+;@ghost dials (Seq Any)
+;@ghost dialok (Seq Any)
+(declare-fun msgBytesFail (Int) Bool)
+;@ghost ctsends (Seq Any)
+;@ghost cbcalls (Seq Any)
